@@ -2038,6 +2038,9 @@ func (ls *LState) Resume(th *LState, fn *LFunction, args ...LValue) (ResumeState
 			TailCall:   0,
 		})
 	}
+	// results and failures come back as (flag, values), also from a thread that
+	// a wrap function drove last
+	th.wrapped = false
 	th.Parent = ls
 	ls.G.CurrentThread = th
 	top := ls.GetTop()
